@@ -60,6 +60,11 @@ CLAIMED["C06"] = ("static pairing and must-pass-through rules over go/cfg (semap
   "Trusts os/gzip/filepath. Does not decide gzip fidelity, once-per-mention for overlapping globs, nor errors of unreadable directories during a recursive walk (dropped by the code; reviewed limitation).",
   "DESIGN.md §3 C06")
 
+CLAIMED["C10"] = ("static effect analysis of stage closures (ambient reads - direct or through repository callees - must be dominated by a context touch, barrier reachability over go/cfg), touch-propagation path rule on wrapping contexts, guard facts on every use of a static-evaluation result, flow rules for the optimisation switch, pooled-context typestate incl. use-after-Return, registration flow rules",
+  "Decides the structural conditions under which constant folding is invisible: a stage that can read the clock, files or mutable package state always touches its context first (and wrappers pass that touch on), the probe counts every lookup, constants are only used where the probe said so, the switch reaches the builder, pooled argument contexts are re-bound per call and not released while in use, funcs-file definitions are registered into the compiling builder.",
+  "Assumes package variables written only by main/cmd start-up code are constant during evaluation. Does not decide value equivalence of a call with its substituted body nor the funcs-file lexical layer.",
+  "DESIGN.md §3 C10")
+
 PENDING_REASON = "static check for this property is designed in DESIGN.md §3 but not yet built in this revision of /verif; not claimed until it runs"
 
 def main():
